@@ -546,6 +546,15 @@ class FakePopen:
         return b"", b""
 
 
+class SignalProxy:
+    """`signal` as `_pswindows` / the front end see it on Windows: the two console events exist"""
+    CTRL_C_EVENT = 0
+    CTRL_BREAK_EVENT = 1
+
+    def __getattr__(self, n):
+        return getattr(signal, n)
+
+
 class SubprocessProxy:
     PIPE = -1
 
@@ -689,6 +698,8 @@ class Emu:
                 m.glob = GlobProxy(self)
             if hasattr(m, "subprocess") and isinstance(m.subprocess, types.ModuleType):
                 m.subprocess = SubprocessProxy(self)
+            if self.windows and n == self.modname and isinstance(getattr(m, "signal", None), types.ModuleType):
+                m.signal = SignalProxy()
             if hasattr(m, "get_procfs_path"):
                 m.get_procfs_path = lambda: PROCFS
             if n != "_common" and hasattr(m, "isfile_strict"):
